@@ -21,6 +21,36 @@ def handler(name, status=0, raises=False):
     return CallbackHandler(cb)
 
 
+def styled_handler(name, register):
+    """writes with the tag <hot>; only the registering variant adds that style - to the formatters of ITS run's IO"""
+    from clikit.handler.callback_handler import CallbackHandler
+
+    def cb(args, io):
+        REC.append([name, {}, {}, list(args.raw_args.tokens), []])
+        if register:
+            from clikit.api.formatter import Style
+            io.output.formatter.add_style(Style("hot").fg("red"))
+            io.error_output.formatter.add_style(Style("hot").fg("red"))
+        io.write_line("<hot>%s</hot> done" % name)
+        io.error_line("<hot>note</hot>")
+        return 0
+
+    return CallbackHandler(cb)
+
+
+class PerRunHandler(object):
+    """given to set_handler as a FACTORY (the class itself): every run gets a new instance, so every run prints 'use 1'"""
+
+    def __init__(self):
+        self.uses = 0
+
+    def handle(self, args, io, command):
+        self.uses += 1
+        REC.append(["fac", {}, {}, list(args.raw_args.tokens), [self.uses]])
+        io.write_line("fac use %d" % self.uses)
+        return 5
+
+
 def f_inner(n):
     if n <= 0:
         raise ValueError("inner failure with value %d" % (n + 42))
